@@ -127,6 +127,37 @@ def roundtrip_case(asgi, shape, s, n, b, ci, cut):
     return 1
 
 
+def reassign_case(asgi, shape, n, early, how, form):
+    """resp.media assigned, (optionally) rendered early -- what a digest / ETag hook does --, then assigned again: the same
+    object after an in-place change (how 0), an equal copy (1), another document (2).  The body finally rendered must be
+    the serialization of the document as last assigned."""
+    doc = ['x', n] if shape == 2 else {'k': 'x', 'n': str(n) if form else n}
+    resp = (falcon.asgi.Response if asgi else Response)(options=ResponseOptions())
+    resp.content_type = falcon.MEDIA_URLENCODED if form else falcon.MEDIA_JSON
+    resp.media = doc
+    if early:
+        first = run_coro(resp.render_body()) if asgi else resp.render_body()
+        if not first:
+            return fail('early render_body() returned nothing')
+    if how == 0:
+        if shape == 2:
+            doc.append('more')
+        else:
+            doc['extra'] = 'more'
+        final = doc
+    elif how == 1:
+        final = list(doc) if shape == 2 else dict(doc)
+    else:
+        final = ['y'] if shape == 2 else {'other': 'y'}
+    resp.media = final
+    body = run_coro(resp.render_body()) if asgi else resp.render_body()
+    req, src = (asgi_req(body, resp.content_type) if asgi else wsgi_req(body, resp.content_type))
+    back = _get(req, asgi)
+    if back != final:
+        return fail(lambda: 'media assigned last %r (early render %r, re-assignment kind %d) is sent as %r' % (final, early, how, body))
+    return 1
+
+
 def form_case(asgi, k1, v1, v2):
     for ch in v1 + v2:
         if 0xD800 <= ord(ch) <= 0xDFFF or (not asgi and False):
@@ -263,6 +294,11 @@ def partitions(tier, seed):
                 P.append(_part('roundtrip_%s_shape%d_%s' % (tag, shape, cname), 's: str, ci: int', ['len(s) == 1', cpre, '0 <= ci <= 2'],
                                'roundtrip_case(%d, %d, s, 7, True, ci, -1)' % (asgi, shape), 250 if q else 900,
                                'round trip of a document of shape %d whose string leaf is one free character of class "%s"; content type menu' % (shape, cname)))
+        P.append(_part('reassign_%s' % tag, 'dict_shape: bool, n: int, early: bool, how: int, form: bool',
+                       ['0 <= n <= 3', '0 <= how <= 2', 'dict_shape or not form'],
+                       'reassign_case(%d, 3 if dict_shape else 2, n, early, how, form)' % asgi, 200,
+                       'resp.media assigned, optionally rendered early, then assigned again (same object mutated in place / equal copy / '
+                       'other document); JSON list or dict, URL-encoded dict: the final body is the last assignment'))
         P.append(_part('form_%s' % tag, 'k1: int, v1: str, v2: str', ['0 <= k1 <= 2', 'len(v1) <= 1 and len(v2) <= 1', 'all(ord(c) < 128 for c in v1 + v2)' if q else 'True'],
                        'form_case(%d, k1, v1, v2)' % asgi, 250 if q else 900, 'URL-encoded form round trip: key from a menu, two values of <= 1 free character'))
     return P
